@@ -26,9 +26,18 @@ for q, e in sorted(table.items()):
     f = F.body_of(fs[0])
     rows, is_open, calls = pins.rows_of(ctx, f)
     e["rows"] = {k: sorted(v) for k, v in sorted(rows.items())}
+    e["skeleton"] = pins.rows_of.last["skeleton"]
+    e["std"] = pins.rows_of.last["std"]
     if "effects" in e:
         eff, eo, ec = pins.effects_of(ctx, f)
         e["effects"] = eff
+        SE = pins.Skel(ctx)
+        T = ctx.T(f)
+        for b in f.blocks:
+            if b["t"]["k"] == "call" and "decl" in b["t"]["f"]:
+                SE.walk(T.call_term(b["t"]))
+        e["effects_skeleton"] = sorted(SE.items)
+        e["std"] = sorted(set(e["std"]) | SE.std)
         calls = calls | ec
         print("        effects: %s%s" % (eff, " OPEN" if eo else ""))
     e["calls"] = sorted(calls)
